@@ -66,7 +66,8 @@ def strategy(tier: str, pid: str = "C01") -> st.SearchStrategy[Any]:
         "groups": batsys.groups(max_groups=max_groups, stress_pct=40),
         "exp": st.one_of(st.sampled_from([0.0, 0.5, 1.0, 1.0, 2.0, 3.0]), st.floats(0.0, 4.0)),
         "req": batsys.request_strategy(),
-        "mode": st.sampled_from(["direct"] * 24 + ["manager"]),
+        "mode": st.sampled_from(["direct"] * 22 + ["manager"] * 3),
+        "rewired": st.booleans(),
         # further requests served by the *same* algorithm / manager instance (index into: the same request
         # again, or another generated request), so that state kept between calls is exercised
         "more": st.lists(st.one_of(st.just("same"), st.just("same"), batsys.request_strategy()), min_size=0, max_size=4),
@@ -221,7 +222,10 @@ def _run_manager(case: dict[str, Any], pid: str, v: Verdict, power: float) -> No
     reqs = _requests(case, power)
 
     async def scenario() -> None:
-        async with batsys.ManagerWorld(case["groups"]) as mw:
+        rewired = bool(case.get("rewired")) and len(case["groups"]) >= 2
+        if rewired:
+            v.labels.add("topology_refreshed_before_the_manager_was_created")
+        async with batsys.ManagerWorld(case["groups"], rewired=rewired) as mw:
             for n, req in enumerate(reqs):
                 mw.api.set_power_calls.clear()
                 if n:
